@@ -43,6 +43,10 @@ def jobs_for(tier):
         for codec in ('per', 'uper'):
             jobs.append(dict(id='%s/%s' % (t['id'], codec), template=t['id'], codec=codec, tier=tier,
                              numeric_enums=False))
+    # the bit-level Encoder of per/uper from an arbitrary state (spilled chunks at any bit offset)
+    # against a bit-string model: alignment and length arithmetic beyond what whole values reach
+    for k in ('per-encoder', 'uper-encoder'):
+        jobs.append(dict(id='kernel/' + k, kernel=k, tier=tier, codec=k.split('-')[0], numeric_enums=False, W=256))
     return jobs
 
 
@@ -51,6 +55,9 @@ def beq(a, b):
 
 
 def make_harness(job):
+    if job.get('kernel'):
+        from checks import C01
+        return C01.make_kernel_harness(job)
     cj = Compiled(job, bounds_for(job['tier'], corpus.BY_ID[job['template']],
                                   **({'n_len': 2, 'int_abs': 1 << 17} if job['tier'] == 'quick' else {'int_abs': 1 << 33})))
     aligned = job['codec'] == 'per'
@@ -130,6 +137,9 @@ def make_harness(job):
 
 def replay(v):
     job = v['job']
+    if job.get('kernel'):
+        from checks import C01
+        return C01.replay_kernel(v)
     tpl = corpus.BY_ID[job['template']]
     spec = asn1tools.compile_string(tpl['text'], job['codec'])
     value = unjson(v['witness']['inputs']['value'])
@@ -163,7 +173,7 @@ def main(argv=None):
     return runner.run_check(
         PROP, 'checks.C05', jobs, a.tier, a.seed, replay=replay, nproc=a.nproc,
         functions=C.functions_of(C.per, C.uper, C.ccompiler, C.permitted_alphabet),
-        bounds=dict(bounds_for(a.tier).as_dict(), templates=len({j['template'] for j in jobs})),
+        bounds=dict(bounds_for(a.tier).as_dict(), templates=len({j.get('template') for j in jobs})),
         assumptions=['oracle: models/x691.py (clause-by-clause model of X.691 written from recall of the standard; '
                      'validated on 5980 encodings incl. the X.691 Annex A examples pinned in the repository tests)',
                      'decisions where model and library differ and the reading of the standard could not be confirmed '
